@@ -154,7 +154,12 @@ impl OptAst {
     pub fn domains_apply(&self, r: &ReqFacts) -> bool {
         let inc: Vec<&str> = self.domains.iter().filter(|(_, n)| !*n).map(|(d, _)| d.as_str()).collect();
         let exc: Vec<&str> = self.domains.iter().filter(|(_, n)| *n).map(|(d, _)| d.as_str()).collect();
-        let covers = |d: &str, host: &str| host == d || host.ends_with(&format!(".{}", d));
+        // hosts and list entries are compared in their ASCII (punycode) form
+        let asc = |x: &str| if x.is_ascii() { x.to_string() } else { idna::domain_to_ascii(x).unwrap_or_else(|_| x.to_string()) };
+        let covers = |d: &str, host: &str| {
+            let (d, host) = (asc(d), asc(host));
+            host == d || host.ends_with(&format!(".{}", d))
+        };
         match r.source_host {
             None => inc.is_empty(),
             Some(h) => {
